@@ -139,7 +139,10 @@ def s_physical(ctx, shape):
         elif kind in spec.SERIES:
             vin = r["vin"]
             if kind in ("RectD", "RectM"):
-                ok = And(Ge(r["vout"], 0.0), Le(r["vout"], Abs(vin)))
+                # a rectifier's output is a magnitude: an inverted bridge (two drops larger than the input) would be FOLDED back
+                # into [0, |vin|) by abs() - so besides the range, the two drops must not exceed the input
+                ok = And(Ge(r["vout"], 0.0), Le(r["vout"], Abs(vin)),
+                         Or(IsZero(vin), spec.keeps_polarity(kind, P, vin, r["iout"])))
             else:
                 ok = Or(IsZero(r["vout"]), And(Eq(Sign(r["vout"]), Sign(vin)), Le(Abs(r["vout"]), Abs(vin))))
             ctx.check("series-element-never-inverts-or-amplifies", ok, key="polarity/%s" % kind, info={"row": name, "kind": kind})
